@@ -77,7 +77,10 @@ Inductive conv (G : ctx) : term -> term -> Prop :=
 | c_app f f' a a' : conv G f f' -> conv G a a' -> conv G (TApp f a) (TApp f' a')
 | c_neg a a' : conv G a a' -> conv G (TNeg a) (TNeg a')
 | c_bin o a a' b b' : conv G a a' -> conv G b b' -> conv G (TBin o a b) (TBin o a' b')
-| c_if c c' a a' b b' : conv G c c' -> conv G a a' -> conv G b b' -> conv G (TIf c a b) (TIf c' a' b').
+| c_if c c' a a' b b' : conv G c c' -> conv G a a' -> conv G b b' -> conv G (TIf c a b) (TIf c' a' b')
+| c_let ds ds' b b' :
+    Forall2 (fun p q => conv (enter ds G) (fst p) (fst q) /\ conv (enter ds G) (snd p) (snd q)) ds ds' ->
+    conv (enter ds G) b b' -> conv G (TLet ds b) (TLet ds' b').
 
 (* ---------- typing ---------- *)
 Inductive has_type (G : ctx) : term -> term -> Prop :=
